@@ -14,6 +14,15 @@ BASE_TRUST = [
 
 PROPERTIES = {
     "C02": dict(
+        engines="A",
+        claim="For every built-in functional (through the real get_xc dispatch, both spin treatments, T = 0 and symbolic T > 0 for the KSDT "
+              "family) the identities vxc_s = d(n exc)/dn_s and d(n exc)/d(grad n_s) = 2 v_ss grad n_s + v_ud grad n_s' are proved as exact "
+              "identities in (n, zeta, grad n) for all admissible inputs, plus pointwise frame, masking at n = 0, exchange+correlation additivity "
+              "of get_xc and finiteness at zeta = +-1 by IEEE special-value evaluation. Obligations whose exact proof exceeds the budget (listed "
+              "by name in the evidence: PBE correlation spin-polarised, KSDT spin-polarised at T > 0) are numerically pre-checked only and are "
+              "NOT counted as discharged.",
+        note="floats as exact reals; in-house algebra normaliser and loader transformations trusted (canary + numeric guard on every run); LDA "
+             "correlation inside PBE correlation taken by contract (modular); generic gradient; side conditions n > 0, |zeta| < 1",
         modules=["contracts.c02"],
         level="proof",
         trusted_base=BASE_TRUST + ["in-house exact-algebra normaliser (engine A)", "mpmath (refutation witnesses, constant signs)"],
@@ -25,6 +34,13 @@ PROPERTIES = {
                     "algebraic/transcendental generators",
     ),
     "C08": dict(
+        engines="A",
+        claim="For all 14 spin-polarised built-in functionals: the polarised code path with identical spin channels equals the unpolarised one "
+              "(exc, vxc_up = vxc_dw = vxc, (v_uu+v_ud+v_dd)/4 = vsigma), exchanging the spin channels of the input exchanges the outputs, and the "
+              "exchange functionals obey the spin-scaling relation - each proved as an exact identity for all densities/gradients. The SCF-level "
+              "clauses (half gradient, densities of duplicated orbitals) are not part of this check yet.",
+        note="floats as exact reals ('same' = exact equality of the two code paths over the reals, round-off excluded); bridged (Libxc) "
+             "functionals are outside (external binary); in-house normaliser trusted (canary on every run)",
         modules=["contracts.c08"],
         level="proof",
         trusted_base=BASE_TRUST + ["in-house exact-algebra normaliser (engine A)", "mpmath (refutation witnesses, constant signs)"],
@@ -33,6 +49,25 @@ PROPERTIES = {
                      "generic gradient (|grad n| != 0)"],
         explanation="zeta=0 reduction, spin-swap symmetry and exchange spin scaling of every built-in functional, proved as exact identities "
                     "between two traced runs of the real get_xc in one generator universe",
+    ),
+    "C19": dict(
+        engines="Z",
+        claim="Class invariants 'is_built / is_filled implies every derived field equals what build() / fill() computes from the current inputs' "
+              "for KPoints, Occupations and Atoms, proved for every public setter and helper by symbolic execution of the real method bodies "
+              "(callee contracts at the Atoms level); by induction this covers every mutation history of any length. Persistence of trs / set_k / "
+              "recenter through build() is proved separately. Two genuine defects are recorded as known findings (explicit fillings and "
+              "negative magnetisation are lost by a rebuild). SCF-level members are not covered yet.",
+        note="un-modelled computations are uninterpreted deterministic functions of the values they read; no aliasing between arrays of different "
+             "objects; bandpath taken by its C15 contract (exactly max(Nk, N_special) points); z3 and the in-house symbolic executor trusted (canary on every run)",
+        modules=["contracts.c19"],
+        level="proof",
+        trusted_base=["ast (parser)", "in-house AST->z3 symbolic executor (engine Z, pycv/wp)", "z3 5.1"],
+        assumptions=["every computation the engine does not interpret (numpy calls, arithmetic on arrays, summarised loops) is a "
+                     "deterministic function of exactly the values it reads (uninterpreted function); listed per obligation as assumed_pure",
+                     "no aliasing between array-valued fields of different objects (numpy's asarray may share memory)",
+                     "None-ness of kmesh/path is enumerated by cases (mesh mode, band-path mode)"],
+        explanation="class invariants 'flag => derived fields equal what build()/fill() computes from the current inputs' proved per public "
+                    "member by symbolic execution of the real class ASTs; induction over the call sequence covers every history",
     ),
 }
 
